@@ -246,6 +246,23 @@ def drawPlan (same : Bool) (nSim : Nat) : List (Bool × Nat) :=
   if same then (true, 0) :: (List.range nSim).map (fun k => (false, k))
   else (List.range nSim).flatMap (fun k => [(true, k), (false, k)])
 
+/-- how many uniform draw blocks one call of `make_signal` consumes on the exact / on the random
+    branch, read off today's source text (leaves `exactDraws`, `randomDraws`: the
+    `np.random.uniform` statement lies on the branch's path and its result reaches the returned
+    signal — on the exact branch through the argument of `np.linalg.qr`) -/
+def signalDrawCount (exact : Bool) : Nat :=
+  if exact then Rsa.Gen.C18.exactDraws else Rsa.Gen.C18.randomDraws
+
+/-- the draw plan of a call on the branch taken: a signal entry is there only if that branch of
+    `make_signal` consumes a draw -/
+def drawPlanFor (exact same : Bool) (nSim : Nat) : List (Bool × Nat) :=
+  (drawPlan same nSim).filter (fun d => !d.1 || signalDrawCount exact != 0)
+
+/-- what `make_signal` starts from: its own draw block if the branch consumes one, else something
+    that does not depend on the draws (`fixed`: a constant frame, arbitrary) -/
+def signalInput (exact : Bool) (z fixed : Mat α) : Mat α :=
+  if signalDrawCount exact = 0 then fixed else z
+
 variable [HasSqrt α]
 
 /-- simulation `k` of `make_dataset`: `signals i` is the result of the `i`-th call of
@@ -314,6 +331,19 @@ def SimCall.value (c : SimCall α) (a : SimArgs α) : List (SimDataset α) :=
       theta := a.theta }
     a.cond
     (fun i => makeSignal c.nCond c.nCh c.exact (c.zs i) (c.whiten i)
+      (c.factor (gramOfRdm c.nCond (squareform c.nCond a.rdm))) a.cholS)
+    c.noises
+
+/-- the call as the code under check performs it with respect to the draws: the `i`-th call of
+    `make_signal` starts from draw block `i` iff its branch consumes a draw (`signalInput`); a branch
+    that draws nothing would start every signal from the same draw-free `fixed` -/
+def SimCall.valueDrawn (c : SimCall α) (a : SimArgs α) (fixed : Mat α) : List (SimDataset α) :=
+  makeDatasets
+    { nCond := c.nCond, nCh := c.nCh, nSim := c.nSim, signal := c.signal, noise := c.noise,
+      cholC := a.cholC, cholT := a.cholT, same := c.same, modelName := c.modelName,
+      theta := a.theta }
+    a.cond
+    (fun i => makeSignal c.nCond c.nCh c.exact (signalInput c.exact (c.zs i) fixed) (c.whiten i)
       (c.factor (gramOfRdm c.nCond (squareform c.nCond a.rdm))) a.cholS)
     c.noises
 
